@@ -26,7 +26,7 @@ ASSUMPTIONS = [
     "'a selected scenario runs into an undefined step' and makes the run fail; a dry-run without one succeeds",
     "hook/cleanup fault cases demand 'failed' only when the injected fault actually fired",
 ]
-REQUIRED = {"verdict.matches_model": {"quick": 1500, "thorough": 100000}, "verdict.structural": {"quick": 1000, "thorough": 80000},
+REQUIRED = {"wild.no_success_verdict_with_failed_elements": {"quick": 8, "thorough": 300}, "verdict.matches_model": {"quick": 1500, "thorough": 100000}, "verdict.structural": {"quick": 1000, "thorough": 80000},
             "fault.hook_makes_run_fail": {"quick": 300, "thorough": 20000}, "fault.cleanup_makes_run_fail": {"quick": 100, "thorough": 5000},
             "exit_code.matches_model": {"quick": 12, "thorough": 300},
             "verdict.failing_sub_step_of_execute_steps_makes_run_fail": {"quick": 200, "thorough": 10000}}
@@ -463,6 +463,10 @@ def run(spec, mon):
         if not plan and not case["cfg"].get("cafs"):
             mon.check("exit_code.same_calls_as_model", calls == pred.calls, lambda: RB.witness(c2, got=calls, want=pred.calls))
         mon.seen("exit_code", str(res["rc"]))
+    if spec["shard"] == 0:
+        # behave's own acceptance features as workload: the probes of bvm.wild in every behave process they spawn
+        from ..wild import run as wild
+        wild.feed(mon, ID, spec.get("tier", "quick"))
 
 
 def replay(case, mon):
@@ -490,4 +494,4 @@ LEVEL_TEXT = ("Exploration: the real ModelRunner executes generated feature tree
               "runs as `python -m behave` and compares the process exit code. Thorough adds an exhaustive small scope.")
 LEVEL_NOTE = ("Trusted: reference model; generated shapes only (small trees, 8 outcomes, 1 fault per run); "
               "dry-run: failed iff a selected scenario has an undefined step.")
-TECHNIQUE = "runtime monitoring: reference-model oracle + fault injection over real runner executions (in-process and subprocess)"
+TECHNIQUE = "runtime monitoring: reference-model oracle + fault injection over real runner executions (in-process and subprocess); plus oracle-free invariant probes armed (sitecustomize) in every behave process that the repository's own acceptance features spawn"
